@@ -152,7 +152,9 @@ def generate(ctx, cfg):
 
 # ---------------------------------------------------------------- case construction
 def ctype_variant(mt, rnd):
-    return rnd.choice([mt, mt, mt + '; charset=utf-8', mt + ';charset=UTF-8', mt + ' ; charset=utf-8'])
+    # parameters are split off by the dispatcher and handed to the minifier (inline=1 changes what CSS/JS parse)
+    return rnd.choice([mt, mt, mt + '; charset=utf-8', mt + ';charset=UTF-8', mt + ' ; charset=utf-8', mt + ';inline=1',
+                       mt + '; charset=utf-8; inline=1'])
 
 
 def rand_partition(n, rnd):
@@ -432,6 +434,7 @@ def run_driver(ctx, exe, cases, tag, procs=None, timeout=1500):
         out_lines = []
         start = 0
         rnd_n = 0
+        nblocked = 0
         while start < len(idx):
             rnd_n += 1
             cin = ctx.path('run', '%s-%d-%d-cases.ndjson' % (tag, si, rnd_n))
@@ -443,10 +446,19 @@ def run_driver(ctx, exe, cases, tag, procs=None, timeout=1500):
                 raise vlib.Infra('driver timeout (%s shard %d)' % (tag, si))
             lines = [l.rstrip('\n') for l in open(cout)] if os.path.exists(cout) else []
             if any(cases[i].get('enum') for i in idx[start:]):
-                if r.returncode != 0:
-                    raise vlib.Infra('driver failed on enumeration cases (%d): %s' % (r.returncode, r.stderr[-2000:]))
                 out_lines += lines
-                break
+                if r.returncode == 0:
+                    break
+                if r.returncode == 3 and lines:
+                    # a run blocked: its record is the last line; resume with the case after the one it belongs to
+                    nblocked += 1
+                    cid = json.loads(lines[-1])['cid']
+                    pos = [k for k, i in enumerate(idx) if cases[i]['id'] == cid]
+                    if nblocked >= 3 or not pos:
+                        break
+                    start = pos[0] + 1
+                    continue
+                raise vlib.Infra('driver failed on enumeration cases (%d): %s' % (r.returncode, r.stderr[-2000:]))
             out_lines += lines
             start += len(lines)
             if r.returncode == 0:
@@ -454,6 +466,9 @@ def run_driver(ctx, exe, cases, tag, procs=None, timeout=1500):
                     raise vlib.Infra('driver wrote %d lines for %d cases' % (start, len(idx)))
                 break
             if r.returncode == 3:
+                nblocked += 1
+                if nblocked >= 4:
+                    break         # enough blocked sessions on this shard; the remaining cases are not run
                 continue          # a blocked session was recorded (last line); resume after it
             if r.returncode == 2 and ('panic:' in r.stderr or 'fatal error:' in r.stderr) and start < len(idx):
                 c = cases[idx[start]]
@@ -469,9 +484,9 @@ def run_driver(ctx, exe, cases, tag, procs=None, timeout=1500):
         return [l for r in res for l in r]
     out = [None] * n
     for si, idx in enumerate(shards):
-        if len(res[si]) != len(idx):
+        if len(res[si]) > len(idx):
             raise vlib.Infra('driver output misaligned (%s shard %d: %d/%d)' % (tag, si, len(res[si]), len(idx)))
-        for k, i in enumerate(idx):
+        for k, i in enumerate(idx[:len(res[si])]):
             out[i] = res[si][k]
     return out
 
@@ -506,6 +521,8 @@ def run_alone(ctx, exe, case, tag, nowatchdog=False):
     return 'ok', lines, r.stderr
 
 
+DRIFT_RE = re.compile(r'<<\s*"DRIFT",\s*(\d+),\s*"([^"]*)"\s*>>', re.S)
+DRIFT = {}          # design-conformance mismatches seen by the last validations (information, never a verdict)
 REJ_RE = re.compile(r'<<\s*"REJECT",\s*(\d+),\s*"([^"]*)"\s*>>', re.S)
 _tv_n = [0]
 
@@ -545,6 +562,9 @@ def trace_validate(ctx, module, cfg, lines, linear, min_per_shard=150, heap='3g'
             raise vlib.Infra('unparsed REJECT output (%s shard %d):\n%s' % (module, s, r['out'][-2000:]))
         for l, why in found:
             rejects.append((index[s][int(l) - 1], ' '.join(why.split())))
+        for l, what in DRIFT_RE.findall(r['out']):
+            what = ' '.join(what.split())
+            DRIFT[what] = DRIFT.get(what, 0) + 1
     rejects = sorted(set(rejects))
     accepted = n - len(set(i for i, _ in rejects))
     return accepted, rejects
@@ -560,41 +580,104 @@ def describe(c, why):
     return '%s %s input=%r (%d bytes): %s' % (c['mode'], json.dumps(d, sort_keys=True), inp[:60], len(inp), why)
 
 
-def confirm_and_report(ctx, exe, cases, lines, rejects):
-    """every rejected session is re-run alone in a fresh process and re-validated before it counts"""
+def confirm_and_report(ctx, exe, cases, lines, rejects, limit=30):
+    """every rejected session is re-run alone in a fresh process and re-validated (one TLC run for all) before it counts"""
     why = {}
     for i, w in rejects:
         why.setdefault(i, []).append(w)
     bad = sorted(why)
     reproduced = 0
-    for i in bad[:60]:
+    again = []          # (case index, line) of the reruns that completed
+    for i in bad[:limit]:
         c = dict(cases[i])
         blocked = any('blocked' in w or 'did not return' in w or 'never saw the end' in w for w in why[i])
         status, l2, err = run_alone(ctx, exe, c, 'r%d' % i, nowatchdog=blocked)
         if status == 'deadlock':
             reproduced += 1
             ctx.report(identity(c), describe(c, 'blocks forever (Go runtime: all goroutines are asleep); first run: ' + '; '.join(why[i])),
-                       dict(case=c, stderr=err[-800:]))
+                       dict(case=identity(c), stderr=err[-800:]))
             continue
         if status == 'crash':
             reproduced += 1
-            ctx.report(identity(c), describe(c, 'process crashed (panic in the code under test): ' + err[-300:]), dict(case=c, stderr=err[-1500:]))
+            ctx.report(identity(c), describe(c, 'process crashed (panic in the code under test): ' + err[-300:]),
+                       dict(case=identity(c), stderr=err[-1500:]))
             continue
         if len(l2) != 1:
             raise vlib.Infra('isolated rerun of case %d produced %d lines' % (i, len(l2)))
-        acc, rej2 = validate(ctx, l2)
-        if rej2:
+        again.append((i, l2[0]))
+    if again:
+        acc, rej2 = validate(ctx, [l for _, l in again])
+        why2 = {}
+        for k, w in rej2:
+            why2.setdefault(k, []).append(w)
+        for k in sorted(why2):
+            i, l = again[k]
             reproduced += 1
-            ws = sorted(set(w for _, w in rej2))
-            ctx.report(identity(c), describe(c, '; '.join(ws)), dict(case=c, session=json.loads(l2[0])))
-    if bad and not reproduced and len(bad) <= 60:
-        pass
+            c = cases[i]
+            s = json.loads(l)
+            ctx.report(identity(c), describe(c, '; '.join(sorted(set(why2[k])))),
+                       dict(case=identity(c), events=[[e['k'], e['n'], e['c'], e['e'], e['t'][:80]] for e in s['ev']][:200]))
     ctx.coverage['rejections'] = len(bad)
     ctx.coverage['rejections_reproduced'] = reproduced
-    if len(bad) > 60 and reproduced == 0:
-        raise vlib.Infra('%d sessions rejected, none of the first 60 reproduced in isolation' % len(bad))
-    if bad and reproduced < min(len(bad), 60) and reproduced == 0:
+    if reproduced == 0:
         raise vlib.Infra('rejections did not reproduce in isolation: %s' % ['%d:%s' % (i, why[i]) for i in bad[:5]])
+
+
+def selftest(ctx, lines, rejected):
+    """flip recorded fields of accepted sessions; TLC must reject every corrupted line with the expected clause"""
+    drift_before = dict(DRIFT)
+    bad = []
+
+    def pick(pred):
+        for i, l in enumerate(lines):
+            if i in rejected:
+                continue
+            s = json.loads(l)
+            if pred(s):
+                return s
+        return None
+    s = pick(lambda s: s['mode'] == 'writer' and s['small'] and s['ff'] == 0 and s['want']['e'] == 'nil' and s['want']['n'] > 1)
+    if s:
+        a = json.loads(json.dumps(s))
+        e = [x for x in a['ev'] if x['k'] == 'SinkWrite' and x['n'] > 0][0]
+        e['b'][0] ^= 1
+        bad.append((a, 'ChunkingInvariance'))
+        a = json.loads(json.dumps(s))
+        cr = [k for k, x in enumerate(a['ev']) if x['k'] == 'CloseRet'][0]
+        sw = [k for k, x in enumerate(a['ev']) if x['k'] == 'SinkWrite' and x['n'] > 0][-1]
+        ev = a['ev']
+        x = ev.pop(cr)
+        ev.insert(sw, x)
+        bad.append((a, 'NoWriteAfterClose'))
+        a = json.loads(json.dumps(s))
+        a['ev'] = [x for x in a['ev'] if x['k'] != 'hook.writer.exit']
+        bad.append((a, 'CloseWaits'))
+        a = json.loads(json.dumps(s))
+        [x for x in a['ev'] if x['k'] == 'CloseRet'][0]['e'] = 'other'
+        bad.append((a, 'CloseWaits'))
+    s = pick(lambda s: s['mode'] in ('mw', 'mwerr') and s['ff'] == 0 and any(x['k'] == 'Commit' for x in s['ev'])
+             and any(x['k'] == 'hook.response.select' for x in s['ev']) and (s['wct'] if s['ct'] else s['wxt'])['e'] == 'nil')
+    if s:
+        a = json.loads(json.dumps(s))
+        [x for x in a['ev'] if x['k'] == 'Commit'][0]['c'] = a['inn'] + 1000
+        bad.append((a, 'ContentLengthGone'))
+    s = pick(lambda s: s['mode'] == 'reader' and s['ff'] == 0 and s['sf'] < 0 and s['want']['e'] == 'nil' and s['want']['n'] > 0)
+    if s:
+        a = json.loads(json.dumps(s))
+        [x for x in a['ev'] if x['k'] == 'Read' and x['e'] != 'nil'][0]['e'] = 'other'
+        bad.append((a, 'ChunkingInvariance'))
+    if len(bad) < 4:
+        raise vlib.Infra('binding self-test: no suitable accepted sessions to corrupt')
+    acc, rej = validate(ctx, [json.dumps(a, separators=(',', ':')) for a, _ in bad])
+    got = {}
+    for k, w in rej:
+        got.setdefault(k, []).append(w)
+    for k, (a, clause) in enumerate(bad):
+        if not any(clause in w for w in got.get(k, [])):
+            raise vlib.Infra('binding self-test: corrupted session %d not rejected by %s (got %s)' % (k, clause, got.get(k)))
+    DRIFT.clear()
+    DRIFT.update(drift_before)
+    ctx.coverage['selftest_corrupted_sessions_rejected'] = len(bad)
 
 
 def profile_inputs(ctx, exe, suite):
@@ -641,6 +724,11 @@ def run(ctx):
         cases.append(c)
     # ---- RUN
     lines = run_driver(ctx, exe, cases, 'main')
+    if any(l is None for l in lines):
+        # only after several sessions blocked: the cases after them on the same shard were not run
+        ctx.coverage['sessions_not_run_after_blocked'] = sum(1 for l in lines if l is None)
+        cases = [c for c, l in zip(cases, lines) if l is not None]
+        lines = [l for l in lines if l is not None]
     hooks = sum(l.count('"hook.writer.exit"') + l.count('"hook.reader.exit"') for l in lines)
     if hooks == 0:
         raise vlib.Infra('no hook events recorded: the harness was not built with -tags verif or the hooks are gone')
@@ -648,6 +736,8 @@ def run(ctx):
     accepted, rejects = validate(ctx, lines)
     if rejects:
         confirm_and_report(ctx, exe, cases, lines, rejects)
+    # ---- binding self-test: corrupted recordings of accepted sessions must be rejected
+    selftest(ctx, lines, set(i for i, _ in rejects))
     # ---- collect MC
     for n, f in futs:
         info = f.result()
@@ -679,6 +769,7 @@ def run(ctx):
         d['events'] = [e['k'] for e in json.loads(lines[0])['ev']][:40]
         samples.append(d)
     ctx.coverage.update(stats)
+    ctx.coverage['design_drift'] = dict(DRIFT)   # event orders that the design model does not allow (information only)
     ctx.coverage.update(dict(
         traces_validated_against_impl=accepted,
         evaluations=len(lines),
